@@ -438,6 +438,10 @@ func (p *Path) assertCond(cond *Term, label string, pos token.Pos) {
 		return
 	}
 	res, model, note := p.sol.Check(p.tc.Not(cond), p.inputTerms())
+	if res == resUnsat && p.cfg.CrossAsserts != "" && p.sol.cross == "" {
+		// every discharged obligation is re-decided by an independent solver
+		p.sol.CrossCheck(p.cfg.CrossAsserts, p.tc.Not(cond), res)
+	}
 	switch res {
 	case resUnsat:
 		p.discharged++
